@@ -10,7 +10,7 @@ UNITS = [
     Unit('shape_tile.uf', 'c04', 'verif_shape_tile', mode='uf', unwind=10, unwind_loops=HN, clause='tile: shape'),
     Unit('tile.uf', 'c04', 'verif_tile', mode='uf', unwind=10, unwind_loops=HN, clause='tile: source index'),
     Unit('shape_roll.bp', 'c04', 'verif_shape_roll', mode='bp', unwind=10, unwind_loops=HN, clause='roll: shape'),
-    Unit('roll.uf', 'c04', 'verif_roll', mode='uf', unwind=10, unwind_loops=HN, clause='roll: source index'),
+    Unit('roll.uf', 'c04', 'verif_roll', mode='uf', unwind=10, unwind_loops=HN, timeout=1200, clause='roll: source index'),
     Unit('shape_pad.bp', 'c04', 'verif_shape_pad', mode='bp', unwind=10, unwind_loops=HN, clause='pad: shape'),
     Unit('pad.bp', 'c04', 'verif_pad', mode='bp', unwind=10, unwind_loops=HN, clause='pad: source index or fill'),
     Unit('shape_concatenate.bp', 'c04', 'verif_shape_concatenate', mode='bp', unwind=10, unwind_loops=HN, clause='concatenate: shape'),
